@@ -541,9 +541,12 @@ class Function(object):
 
         """
 
+        # Recorded points have a pruned decomposition (see add_point): compare with the pruned decomposition of point
+        point_decomposition_dict = prune_dict(point.decomposition_dict)
+
         # Browse the list of point "self" has been evaluated on
         for triplet in self.list_of_points:
-            if triplet[0].decomposition_dict == point.decomposition_dict:
+            if triplet[0].decomposition_dict == point_decomposition_dict:
                 # If "self" has been evaluated on "point", then break the loop and return its corresponding data
                 return triplet[1:]
 
